@@ -8,31 +8,44 @@ import os
 import shutil
 import tempfile
 
+import itertools
+import sys
+
 import bindgen
 import fw
+import textgen
 
-LEAN_PROPS = ["NmlVerif.Props.C01"]
+sys.path.insert(0, os.path.join(fw.VERIF, "translators"))
+import py2lean_quote  # noqa
+
+LEAN_PROPS = ["NmlVerif.Props.C01", "NmlVerif.Props.C01Text", "NmlVerif.Props.C01Parse"]
 LEVEL = "proof"
 RULE = ("for every one of the 199 binding classes: random objects through the real constructors (every own and inherited "
-        "member set at least once per class per run; strings over an alphabet over-representing < > & quotes newline ]]> CDATA; "
-        "numbers over many magnitudes; lists 0-2 (thorough 0-4); depth <= 3), exported under the class's tag and rebuilt; plus "
-        "whole documents through NeuroMLWriter/NeuroMLLoader. non-trivial = at least one member set; distinct = distinct "
-        "canonical descriptions")
+        "member set at least once per class per run; strings over an alphabet over-representing < > & both quote kinds newline ]]> "
+        "CDATA &#10; non-ASCII; numbers over many magnitudes incl. exponent-form floats with integer mantissa, both zeros, integers "
+        "beyond 2^53; lists 0-2 (thorough 0-4); depth <= 3), exported under the class's tag and rebuilt through the library's own "
+        "parser; for every class and child member an object whose ONLY content is that member; trees with a past (a child obtained "
+        "by reading XML moved to another slot, written, read); whole documents through NeuroMLWriter/NeuroMLLoader; escaping: every "
+        "string over an 11-letter special alphabet up to length 2 (3 thorough) + corpus + random. Every case is also compared at the "
+        "text level: model export+serialise vs the real bytes, model reader vs lxml, parse(serialise(t)) = t. non-trivial = at least "
+        "one member set / a special character in the string; distinct = distinct canonical descriptions")
 TRUST = [
-    "translator translators/nml_extract.py + emit_bindings.py (AST shape recognition of the generated methods; canonical lexical forms of constructor defaults)",
-    "scalars are modelled by their canonical lexical form: CPython float formatting/parsing (%.15f, repr) and int() are trusted and sampled, not proved",
-    "lxml/libxml2 tokenising, entity decoding and attribute-value normalisation are trusted and sampled",
-    "xsi:type / extensiontype_ polymorphism and xs:any content are outside the model (objects hold exactly the declared child class, no raw content)",
+    "translators translators/nml_extract.py + emit_bindings.py (AST shape recognition of the generated methods incl. export()/build() as a whole; canonical lexical forms of constructor defaults) and translators/py2lean_quote.py (statement/expression translation of quote_xml, quote_xml_aux, quote_attrib and the string/integer/boolean codecs; refuses anything outside its vocabulary)",
+    "floats/doubles are modelled by their canonical lexical form: CPython %.15f / repr / float() are trusted and sampled; int() is modelled exactly on ASCII input, '%d' is Lean's Int.repr (trusted)",
+    "lxml/libxml2 behaves as the XML reader model of Model/XmlText.lean (XML 1.0 end-of-line handling, tags, references, attribute-value normalisation, CDATA, comments, PIs): sampled on every written text, on hand-mangled variants and on a fixed corpus of well- and ill-formed texts",
+    "the name table between the Nat-named binding level and the string-named text level is applied by the harness (bindings_names.json), not proved injective in Lean",
+    "xsi:type / extensiontype_ polymorphism and xs:any content are outside the model (objects hold exactly the declared child class, no raw content); namespace prefixes and DOCTYPE are not modelled",
 ]
 ASSUMPTIONS = [
-    "Conforms: integer members hold values in the range their loader accepts (NonNegativeInteger >= 0, PositiveInteger > 0); strings contain no TAB/CR (XML attribute-value normalisation); members guarded by `!= default` are not None",
+    "Conforms: integer members hold values in the range their loader accepts (NonNegativeInteger >= 0, PositiveInteger > 0); members guarded by `!= default` are not None; text children are strings (not None)",
+    "character guard of the text-level theorems: attribute values over XML Chars without TAB and CR (AttrChar), element text over XML Chars without CR (TextChar) and without a CDATA section; why: c01_attr_tab_witness, c01_attr_cr_witness, c01_text_cr_witness, c01_text_cdata_witness",
     "text level: known finding C01:cdata-in-text (a literal CDATA section inside element text is unwrapped)",
 ]
 
 
 def regenerate(ctx):
     ctx.ir = bindgen.IR()
-    return list(ctx.ir.gaps)
+    return list(ctx.ir.gaps) + py2lean_quote.regenerate(fw.REPO, fw.LEAN)
 
 
 def floats_equal_15(a, b):
@@ -106,7 +119,7 @@ def one_case(ctx, ir, gen, cls, force, lines, pending, prebuilt=None):
         ctx.fail("C01:export-raised:" + cls, "export raised %r" % (e,), case)
         return
     try:
-        root = etree.fromstring(text.encode("utf-8"), parser=etree.XMLParser(remove_comments=True))
+        root = textgen.lib_parse(mod, text)          # the library's own parser configuration (parsexmlstring_)
         tree = bindgen.xml_to_tree(ir, root, cls)
     except Exception as e:
         ctx.fail("C01:not-well-formed:" + cls, "written XML does not parse: %r" % (e,), dict(case, text=text[:500]))
@@ -133,7 +146,11 @@ def one_case(ctx, ir, gen, cls, force, lines, pending, prebuilt=None):
         return
     fuel = 12
     lines.append(json.dumps({"op": "export", "tag": ir.ix.get(tag, 10 ** 6), "fuel": fuel, "obj": bindgen.enc_obj(ir, desc)}))
-    pending.append(("export", case, tree))
+    try:
+        text0 = textgen.real_export(o, tag, "")
+    except Exception:
+        text0 = None
+    pending.append(("export", dict(case, tag=tag, text0=text0), tree))
     lines.append(json.dumps({"op": "build", "cls": ir.ix[cls], "fuel": fuel, "node": bindgen.enc_tree(ir, tree)}))
     pending.append(("build", case, desc2))
 
@@ -156,6 +173,7 @@ def flush(ctx, ir, lines, pending):
     if rc != 0 or len(out) != len(lines):
         ctx.disagree("driver", "driver failed rc=%s" % rc, "\n".join(out[-3:])[:500], None)
         return
+    tb = textgen.Batch("C04")
     for (kind, case, expect), l in zip(pending, out):
         ctx.corr_evals += 1
         r = json.loads(l)
@@ -163,17 +181,51 @@ def flush(ctx, ir, lines, pending):
             ctx.disagree("binding-" + kind, case, "ok", r)
             continue
         if kind == "export":
-            got = norm_tree_text(bindgen.dec_tree(ir, r["ok"]))
+            mt = bindgen.dec_tree(ir, r["ok"])
+            got = norm_tree_text(mt)
             exp = norm_tree_text(strip_tree(expect))
             if got["tag"].startswith("?"):     # a root tag that is not a name of the table travels as an opaque number
                 got["tag"] = exp["tag"]
+                mt["tag"] = exp["tag"]
             if got != exp:
                 ctx.disagree("binding-export", case, exp, got)
+            # text level: model export + model serialiser vs the bytes the real export writes; model reader vs lxml
+            if case.get("text0") is not None:
+                text_streams(ctx, tb, {"cls": case["cls"], "desc": case["desc"]}, textgen.tnode_of_tree(mt), case["text0"])
         else:
             got = bindgen.dec_obj(ir, r["ok"])
             d = compare_desc(expect, got, case["cls"]) or compare_desc(got, expect, case["cls"])
             if d:
                 ctx.disagree("binding-build", case, expect, d)
+    tb.flush(ctx)
+
+
+def text_streams(ctx, tb, case, mtree, text, extra=None):
+    """queue: model serialisation of `mtree` must equal `text` byte for byte; model parse of `text` must equal lxml's"""
+    ctx.count("text-level-cases")
+
+    def ser(r, case=case, text=text):
+        if r.get("r") != text:
+            ctx.disagree("text-serialise", case, text[:600], (r.get("r") or "")[:600])
+    tb.add({"op": "serialise", "fuel": 40, "tree": mtree, "extra": extra or []}, ser)
+    parse_stream(ctx, tb, case, text, expect_tree=None if extra else mtree)
+
+
+def parse_stream(ctx, tb, case, text, expect_tree=None):
+    """model reader vs lxml on one text (well-formed or not); with `expect_tree`: the model reader applied to the
+    text must give back the model tree the text was serialised from (parse . serialise = id, sampled)"""
+    try:
+        lx = textgen.lx_to_tnode(textgen.lx_parse(text))
+    except Exception as e:
+        lx = None
+
+    def par(r, case=case, text=text, lx=lx):
+        mo = textgen.canon_model(r["ok"]) if "ok" in r else None
+        if mo != lx:
+            ctx.disagree("text-parse", dict(case, text=text[:600]), lx, mo)
+        elif expect_tree is not None and mo != textgen.canon_model(expect_tree):
+            ctx.disagree("text-roundtrip", dict(case, text=text[:600]), textgen.canon_model(expect_tree), mo)
+    tb.add({"op": "parse", "s": text}, par)
 
 
 def doc_roundtrip(ctx, ir, gen, n):
@@ -205,21 +257,256 @@ CORPUS = [
     {"cls": "SegmentParent", "kw": {"segments": 3, "fraction_along": 1.0}},
     {"cls": "SegmentParent", "kw": {"segments": 3, "fraction_along": 0.5}},
     {"cls": "Segment", "kw": {"id": 1, "name": "a\"b'c<&>\nd"}},
+    {"cls": "Property", "kw": {"tag": "both \" and '", "value": "first line\nsecond line & more &#10; <x/> ]]>"}},
+    {"cls": "NeuroMLDocument", "kw": {"id": "d", "notes": ""}},
+    {"cls": "NeuroMLDocument", "kw": {"id": "d", "notes": "  a\n\tb ]]> <![CDATA[ &amp; "}},
+    {"cls": "NeuroMLDocument", "kw": {"id": "d", "notes": "   "}},                       # white space only: significant
+    {"cls": "Point3DWithDiam", "kw": {"x": 0.0, "y": -0.0, "z": 1e-07, "diameter": 1e16}},
+    {"cls": "Connection", "kw": {"id": 0, "pre_cell_id": "../p/0/c", "post_cell_id": "../p/1/c", "pre_fraction_along": 1e-07,
+                                 "post_fraction_along": 2e-06}},
 ]
+
+QUOTE_CORPUS = ["", "a", "\"", "'", "\"'", "'\"", "a\"b'c", "<", ">", "&", "\n", "a\nb", "&#10;", "&amp;", "&quot;", "]]>", "<![CDATA[",
+                "x<![CDATA[zz]]>y", "<![CDATA[a]]><![CDATA[b]]>", "<![CDATA[]]>", "é", "\U0001F600", " ", "  a  ", "a=b", "%s", "%", "\\",
+                "first line\nsecond line & more", "O'Brien's \"fast\" channel", "a\tb", "a\rb", "a\r\nb", "\x7f", "\x85", " "]
+Q_ALPHA = ["a", '"', "'", "<", ">", "&", "\n", " ", "]", ";", "#"]
+
+
+def in_attr_guard(s):
+    return all((ord(c) >= 0x20 or c == "\n") and ord(c) not in (0xFFFE, 0xFFFF) for c in s)
+
+
+def in_text_guard(s):
+    return all((ord(c) >= 0x20 or c in "\n\t") and ord(c) not in (0xFFFE, 0xFFFF) for c in s)
+
+
+def quote_stream(ctx, tb, strings):
+    """escaping: real quote_attrib / quote_xml vs the regenerated definitions; lxml reading vs the model reader;
+    full-property oracle: what lxml reads back is the original string"""
+    import neuroml.nml.nml as mod
+    from lxml import etree
+    for s in strings:
+        ctx.seen({"quote": s}, nontrivial=any(c in s for c in "<>&\"'\n"))
+        ctx.count("quote-strings")
+        case = {"kind": "quote", "s": s}
+        try:
+            qa, qx = mod.quote_attrib(s), mod.quote_xml(s)
+        except Exception as e:
+            ctx.fail("C01:quote-raised", repr(e), case)
+            continue
+
+        def cmp(real, stream, case=case):
+            def k(r):
+                if r.get("r") != real:
+                    ctx.disagree(stream, case, real, r.get("r"))
+            return k
+        tb.add({"op": "quote_attrib", "s": s}, cmp(qa, "gen-quote_attrib"))
+        tb.add({"op": "quote_xml", "s": s}, cmp(qx, "gen-quote_xml"))
+        try:
+            el = etree.fromstring(("<a v=%s>%s</a>" % (qa, qx)).encode("utf-8"))
+            la, lt = el.get("v"), (el.text or "")
+        except Exception as e:
+            la = lt = None
+            if in_attr_guard(s) and in_text_guard(s):
+                ctx.fail("C01:quote-not-well-formed", "what quote_attrib/quote_xml wrote does not parse: %r" % (e,),
+                         dict(case, written="<a v=%s>%s</a>" % (qa, qx)))
+        tb.add({"op": "read_attr", "s": qa}, cmp(la, "reader-attr") if la is not None or not in_attr_guard(s) else (lambda r: None))
+        if "<![CDATA[" not in s:
+            tb.add({"op": "read_text", "s": qx}, cmp(lt, "reader-text") if lt is not None or not in_text_guard(s) else (lambda r: None))
+        if la is None:
+            continue
+        if in_attr_guard(s) and la != s:
+            ctx.fail("C01:quote-roundtrip:attribute", "attribute value %r is read back as %r" % (s, la), dict(case, written=qa))
+        if in_text_guard(s) and "\r" not in s and lt != s:
+            if "<![CDATA[" in s and bindgen.cdata_unwrap(s) == lt:
+                ctx.fail("C01:cdata-in-text", "text %r is read back as %r" % (s, lt), dict(case, written=qx))
+            else:
+                ctx.fail("C01:quote-roundtrip:text", "element text %r is read back as %r" % (s, lt), dict(case, written=qx))
+
+
+def read_back(mod, cls, text):
+    return getattr(mod, cls).factory().build(textgen.lib_parse(mod, text))
+
+
+def slots_by_class(ir):
+    """child class -> [(parent class, member, tag, container)] over all non-text, non-polymorphic child members"""
+    out = {}
+    for c in ir.table["classes"]:
+        for k in ir.flat(c["name"])[1]:
+            if not k["text"] and k["cls"] and not k["poly"]:
+                out.setdefault(k["cls"], []).append((c["name"], k["member"], k["tag"], k["container"]))
+    return out
+
+
+def past_tree_case(ctx, ir, gen, parent, src, dst, tb=None, pid="C01"):
+    """a tree with a past: a child object obtained by READING XML under tag `src` is moved to the slot `dst` (another
+    member / another tag) of a `parent` object, then written and read again; the object must arrive in that slot"""
+    mod = gen.mod
+    (p1, m1, t1, c1), (p2, m2, t2, c2) = src, dst
+    cls = next(k["cls"] for k in ir.flat(p1)[1] if k["member"] == m1)
+    try:
+        child, _ = gen.obj(cls, depth=2)
+        donor = getattr(mod, p1)(**{m1: [child] if c1 else child})
+        read_donor = read_back(mod, p1, textgen.real_export(donor, tag_for(ir, p1), ""))
+        moved = getattr(read_donor, m1)
+        moved = moved[0] if c1 else moved
+        if p2 == p1 and parent is None:
+            target = read_donor
+            setattr(target, m1, [] if c1 else None)
+        else:
+            target = getattr(mod, p2)()
+        setattr(target, m2, [moved] if c2 else moved)
+    except Exception as e:
+        ctx.count("past-ctor-raised")
+        return
+    case = {"kind": "past", "child": cls, "src": [p1, m1, t1], "dst": [p2, m2, t2], "desc": bindgen.dump(ir, mod, child, cls)}
+    ctx.seen(case, nontrivial=True)
+    ctx.count("past-tree-cases")
+    before = bindgen.meta_dump(target)
+    try:
+        text = textgen.real_export(target, tag_for(ir, p2), "")
+        again = read_back(mod, p2, text)
+    except Exception as e:
+        ctx.fail(pid + ":past-tree-raised:" + p2, "write/read of a re-arranged read tree raised %r" % (e,), case)
+        return
+    d = bindgen.meta_diff(before, bindgen.meta_dump(again), p2)
+    if d:
+        ctx.fail(pid + ":past-tree-mismatch:%s.%s" % (p2, m2),
+                 "a %s read as <%s> and moved to %s.%s is not read back there: %s" % (cls, t1, p2, m2, dstr(d)), dict(case, text=text[:600]))
+    elif tb is not None:
+        # the model knows no `original_tagname_`: its export of the re-arranged tree must give the same bytes
+        try:
+            desc = bindgen.dump(ir, mod, target, p2)
+            if not has_cdata_text(desc):
+                def cont(r, case=case, text=text, tag=tag_for(ir, p2)):
+                    if "ok" not in r:
+                        ctx.disagree("binding-export", case, "ok", r)
+                        return
+                    mt = bindgen.dec_tree(ir, r["ok"])
+                    if mt["tag"].startswith("?"):
+                        mt["tag"] = tag
+                    tb2 = textgen.Batch("C04")
+                    text_streams(ctx, tb2, case, textgen.tnode_of_tree(mt), text)
+                    tb2.flush(ctx)
+                tb.add({"op": "export", "tag": ir.ix.get(tag_for(ir, p2), 10 ** 6), "fuel": 12, "obj": bindgen.enc_obj(ir, desc)}, cont)
+        except Exception as e:
+            ctx.disagree("binding-dump", case, repr(e), None)
+
+
+def past_trees(ctx, ir, gen, n_cross, pid="C01"):
+    tb = textgen.Batch("C01")
+    slots = slots_by_class(ir)
+    for cls, sl in sorted(slots.items()):
+        # inside one parent: every ordered pair of distinct members holding the same class
+        for a, b in itertools.permutations(sl, 2):
+            if a[0] == b[0] and a[2] != b[2]:
+                past_tree_case(ctx, ir, gen, None, a, b, tb, pid)
+    cross = [(a, b) for cls, sl in sorted(slots.items()) for a, b in itertools.permutations(sl, 2) if a[2] != b[2] and a[0] != b[0]]
+    for a, b in (ctx.rng.sample(cross, min(len(cross), n_cross))):
+        past_tree_case(ctx, ir, gen, "fresh", a, b, tb, pid)
+    tb.flush(ctx)
+    ctx.extra["past_tree_slot_pairs"] = {"same_parent": sum(1 for cls, sl in slots.items() for a, b in itertools.permutations(sl, 2)
+                                                           if a[0] == b[0] and a[2] != b[2]), "cross_parent": len(cross)}
+
+
+def only_one_kid(ctx, ir, gen, lines, pending, classes, every):
+    """for every class and every child member: an object whose ONLY content is that member (all other children absent);
+    this is the input that exposes a child member missing from has__content / _exportChildren / _buildChildren"""
+    saved = gen.p_kid
+    n = 0
+    for cls in classes:
+        attrs, kids = ir.flat(cls)
+        for k in kids:
+            if not (k["text"] or k["cls"]):
+                continue
+            if not every and ctx.rng.random() > 0.5:
+                continue
+            gen.p_kid = 0.0
+            try:
+                pre = gen.obj(cls, force=k["member"])
+            except Exception:
+                ctx.count("ctor-raised")
+                continue
+            finally:
+                gen.p_kid = saved
+            one_case(ctx, ir, gen, cls, k["member"], lines, pending, prebuilt=pre)
+            ctx.count("only-one-kid-cases")
+            n += 1
+    return n
+
+
+def doc_bytes(ctx, ir, gen, n):
+    """whole documents through NeuroMLWriter: the bytes of the file vs the model (export + serialiser + the writer's
+    namespace definitions); the model reader vs lxml on the file"""
+    import neuroml.writers as W
+    nsdef = textgen.writer_nsdef()
+    ex = textgen.nsdef_extra(nsdef) if nsdef is not None else None
+    if not ex or ex[1] != "":
+        ctx.disagree("writer-nsdef", "namespacedef of NeuroMLWriter.write is not a list of attributes", repr(nsdef), None)
+        return
+    tb = textgen.Batch("C01")
+    tmp = tempfile.mkdtemp(prefix="verif_c01b_")
+    try:
+        done = 0
+        for i in range(20 * n):
+            if done >= n:
+                break
+            o, desc = gen.obj("NeuroMLDocument")
+            if has_cdata_text(desc):
+                continue
+            done += 1
+            p = os.path.join(tmp, "b%d.nml" % i)
+            W.NeuroMLWriter.write(o, p)
+            text = open(p, encoding="utf-8").read()
+            case = {"cls": "NeuroMLDocument", "desc": desc, "via": "NeuroMLWriter"}
+            ctx.count("doc-bytes-cases")
+
+            def cont(r, case=case, text=text):
+                if "ok" not in r:
+                    ctx.disagree("binding-export", case, "ok", r)
+                    return
+                mt = bindgen.dec_tree(ir, r["ok"])
+                if mt["tag"].startswith("?"):
+                    mt["tag"] = "neuroml"
+                tb2 = textgen.Batch("C04")
+                text_streams(ctx, tb2, case, textgen.tnode_of_tree(mt), text, extra=ex[0])
+                tb2.flush(ctx)
+            tb.add({"op": "export", "tag": ir.ix.get("neuroml", 10 ** 6), "fuel": 12, "obj": bindgen.enc_obj(ir, desc)}, cont)
+    finally:
+        shutil.rmtree(tmp, ignore_errors=True)
+    tb.flush(ctx)
 
 
 def run(ctx):
     ir = getattr(ctx, "ir", None) or bindgen.IR()
     import neuroml.nml.nml as mod
     lines, pending = [], []
-    gen = bindgen.Gen(ir, ctx.rng, special=True, max_depth=ctx.n(2, 3), max_list=ctx.n(2, 4))
+    gen = textgen.TGen(ir, ctx.rng, special=True, max_depth=ctx.n(2, 3), max_list=ctx.n(2, 4))
     # corpus first
     for c in CORPUS:
         o = getattr(mod, c["cls"])(**c["kw"])
         one_case(ctx, ir, gen, c["cls"], None, lines, pending, prebuilt=(o, bindgen.dump(ir, mod, o, c["cls"])))
+    # escaping: corpus, every string over the special alphabet up to length 3 (4 when an obligation is broken), random
+    tb = textgen.Batch("C04")
+    strings = list(QUOTE_CORPUS)
+    for n in range(1, 4 if ctx.search_mult == 1 else 5):
+        if n <= 2 or ctx.tier == "thorough" or ctx.search_mult > 1:
+            strings += ["".join(t) for t in itertools.product(Q_ALPHA, repeat=n)]
+        else:
+            strings += ["".join(ctx.rng.choice(Q_ALPHA) for _ in range(n)) for _ in range(300)]
+    strings += [textgen.rand_attr_string(ctx.rng, tab=True) for _ in range(ctx.n(300, 3000))]
+    strings += [textgen.rand_text_string(ctx.rng, cdata=True) for _ in range(ctx.n(100, 1000))]
+    quote_stream(ctx, tb, strings)
+    for t in textgen.MALFORMED + textgen.WELLFORMED_EXTRA:
+        ctx.count("fixed-parse-texts")
+        parse_stream(ctx, tb, {"kind": "fixed-text"}, t)
+    tb.flush(ctx)
     per = ctx.n(3, 40) * ctx.search_mult
     classes = [c["name"] for c in ir.table["classes"]]
     members_hit = 0
+    members_hit += only_one_kid(ctx, ir, gen, lines, pending, classes, every=(ctx.tier == "thorough" or ctx.search_mult > 1))
+    flush(ctx, ir, lines, pending)
+    lines, pending = [], []
     for cls in classes:
         attrs, kids = ir.flat(cls)
         forced = [a["member"] for a in attrs] + [k["member"] for k in kids if k["text"] or k["cls"]]
@@ -234,35 +521,70 @@ def run(ctx):
             flush(ctx, ir, lines, pending)
             lines, pending = [], []
     flush(ctx, ir, lines, pending)
+    past_trees(ctx, ir, gen, ctx.n(60, 600))
     doc_roundtrip(ctx, ir, gen, ctx.n(15, 200) * ctx.search_mult)
+    doc_bytes(ctx, ir, gen, ctx.n(6, 40))
     ctx.extra["classes_covered"] = len(classes)
     ctx.extra["members_forced"] = members_hit
     ctx.extra["translator_shapes"] = {"classes": len(classes), "opaque_statements": len(ir.gaps)}
     ctx.sample({"cls": "SegmentParent", "desc": {"attrs": {"segments": "3", "fraction_along": "0.5"}}})
+    ctx.sample({"kind": "quote", "s": "O'Brien's \"fast\" channel\n<&>"})
+    ctx.sample({"kind": "past", "child": "Point3DWithDiam", "src": ["Segment", "distal", "distal"], "dst": ["Segment", "proximal", "proximal"]})
+
+
+def build_from_desc(ir, mod, d):
+    if d["cls"] == "#text":
+        return d["text"]
+    attrs, kids = ir.flat(d["cls"])
+    kw = {}
+    for a in attrs:
+        v = d["attrs"].get(a["member"])
+        if v is not None:
+            kw[a["member"]] = {"int": int, "float": float, "double": float, "bool": (lambda x: x == "true")}.get(a["prim"], str)(v)
+    for k in kids:
+        xs = [build_from_desc(ir, mod, x) for x in d["kids"].get(k["member"], [])]
+        if xs:
+            kw[k["member"]] = xs if k["container"] else xs[0]
+    return getattr(mod, d["cls"])(**kw)
 
 
 def replay(ctx, payload):
     ir = bindgen.IR()
     import neuroml.nml.nml as mod
-    case = payload["case"]
-    desc = case["desc"]
-
-    def build(d):
-        if d["cls"] == "#text":
-            return d["text"]
-        attrs, kids = ir.flat(d["cls"])
-        kw = {}
-        for a in attrs:
-            v = d["attrs"].get(a["member"])
-            if v is not None:
-                kw[a["member"]] = {"int": int, "float": float, "double": float}.get(a["prim"], str)(v)
-        for k in kids:
-            xs = [build(x) for x in d["kids"].get(k["member"], [])]
-            if xs:
-                kw[k["member"]] = xs if k["container"] else xs[0]
-        return getattr(mod, d["cls"])(**kw)
     from lxml import etree
-    o = build(desc)
+    case = payload["case"]
+    if case.get("kind") == "quote":
+        s = case["s"]
+        qa, qx = mod.quote_attrib(s), mod.quote_xml(s)
+        try:
+            el = etree.fromstring(("<a v=%s>%s</a>" % (qa, qx)).encode("utf-8"))
+            la, lt = el.get("v"), (el.text or "")
+        except Exception as e:
+            return {"fails": True, "string": s, "written": "<a v=%s>%s</a>" % (qa, qx), "error": repr(e)}
+        return {"fails": la != s or lt != s, "string": s, "attribute_read_back": la, "text_read_back": lt,
+                "written": "<a v=%s>%s</a>" % (qa, qx)}
+    if case.get("kind") == "past":
+        (p1, m1, t1), (p2, m2, t2) = case["src"], case["dst"]
+        c1 = next(k["container"] for k in ir.flat(p1)[1] if k["member"] == m1)
+        c2 = next(k["container"] for k in ir.flat(p2)[1] if k["member"] == m2)
+        child = build_from_desc(ir, mod, case["desc"])
+        donor = getattr(mod, p1)(**{m1: [child] if c1 else child})
+        rd = read_back(mod, p1, textgen.real_export(donor, tag_for(ir, p1), ""))
+        moved = getattr(rd, m1)
+        moved = moved[0] if c1 else moved
+        if p1 == p2:
+            target = rd
+            setattr(target, m1, [] if c1 else None)
+        else:
+            target = getattr(mod, p2)()
+        setattr(target, m2, [moved] if c2 else moved)
+        before = bindgen.meta_dump(target)
+        text = textgen.real_export(target, tag_for(ir, p2), "")
+        d = bindgen.meta_diff(before, bindgen.meta_dump(read_back(mod, p2, text)), p2)
+        return {"fails": bool(d), "difference": dstr(d) if d else None, "xml": text[:1000],
+                "steps": "build %s, write, read, move %s.%s -> %s.%s, write, read" % (p1, p1, m1, p2, m2)}
+    desc = case["desc"]
+    o = build_from_desc(ir, mod, desc)
     text = bindgen.export_text(o, tag_for(ir, desc["cls"]))
     o2 = getattr(mod, desc["cls"]).factory().build(etree.fromstring(text.encode("utf-8")))
     d = bindgen.meta_diff(bindgen.meta_dump(o), bindgen.meta_dump(o2), desc["cls"])
